@@ -1216,6 +1216,13 @@ impl<'a, R: ?Sized + std::io::BufRead> Tokenizer<'a, R> {
             return Ok(false);
         }
 
+        // An end tag can only be found once we are inside the here-document bodies. Before that
+        // (end of input still on the line of the here-doc operator) there is no body to end;
+        // with an empty tag (`<<''`) matching it here would never make progress.
+        if !matches!(self.cross_state.here_state, HereState::InHereDocs) {
+            return Ok(false);
+        }
+
         let next_here_tag = &self.cross_state.current_here_tags[0];
 
         let tag_str: Cow<'_, str> = if next_here_tag.tag_was_escaped_or_quoted {
@@ -1538,6 +1545,17 @@ SOMETHING
 ",
         );
         assert!(result.is_err());
+    }
+
+    #[test]
+    fn tokenize_empty_here_tag_at_end_of_input_terminates() {
+        // Used to loop forever: end of input on the operator's line, empty (quoted) tag.
+        for input in ["cat <<'' ", "cat <<\"\" ; x\t", "<<-'' "] {
+            assert_matches!(
+                tokenize_str(input),
+                Err(TokenizerError::UnterminatedHereDocuments(_, _))
+            );
+        }
     }
 
     #[test]
